@@ -64,8 +64,7 @@ TRUSTED_BASE = [
     "not modelled: the numerics of the memoised functions (they are the oracle F)",
 ]
 ASSUMPTIONS = [
-    "list arguments of memoised functions are flat (no nested lists); no "
-    "object-dtype arrays",
+    "no object-dtype arrays among the arguments of memoised functions",
     "distinct memoised functions differ in (__name__, __doc__, co_filename)",
     "0 <= cached.MAX_SIZE",
     "hierarchy children are read after rejuvenate() (staleness w.r.t. parent "
@@ -330,6 +329,8 @@ def dec_py(t):
         return bool(t[1])
     if k == "t":
         return tuple(dec_py(x) for x in t[1])
+    if k == "L":
+        return [dec_py(x) for x in t[1]]
     raise ValueError(t)
 
 
@@ -401,7 +402,9 @@ PY_POOL = [["py", ["i", 5]], ["py", ["i", 55]], ["l", [["i", 5], ["i", 5]]],
            ["py", ["s", "None"]], ["py", ["b", True]], ["py", ["i", 1]],
            ["py", ["f", 1.0]], ["py", ["s", "True"]], ["py", ["f", 5.0]],
            ["l", [["f", 0.5], ["f", 0.5]]], ["py", ["t", [["f", 0.5], ["f", 0.5]]]],
-           ["l", []], ["py", ["s", ""]]]
+           ["l", []], ["py", ["s", ""]],
+           ["l", [["i", 5], ["L", [["i", 5]]]]], ["l", [["L", [["i", 5]]], ["i", 5]]],
+           ["l", [["L", [["i", 5], ["i", 5]]]]], ["l", [["L", []]]]]
 
 
 def gen_sig(rng):
@@ -571,18 +574,16 @@ class AtomPool:
 
     def arg(self, arg):
         if isinstance(arg, list):
-            if any(isinstance(x, list) for x in arg):
-                raise ValueError("nested list arguments are not modelled")
-            return "(1, %s)" % common.zlist([self.atom(x) for x in arg])
-        return "(0, [%d])" % self.atom(arg)
+            return "TL %s" % common.clist([self.arg(x) for x in arg])
+        return "TA %d" % self.atom(arg)
 
 
 CACHE_HEADER = """From Coq Require Import ZArith List.
 Import ListNotations.
 From Verif Require Import Model.C17.
 Open Scope Z_scope.
-Definition mkcall (nm doc file : Z) (pos : list (Z * list Z))
-  (kw : list (Z * (Z * list Z))) (fv : Z) : ccall := ((nm, doc, file), pos, kw, fv).
+Definition mkcall (nm doc file : Z) (pos : list targ)
+  (kw : list (Z * targ)) (fv : Z) : ccall := ((nm, doc, file), pos, kw, fv).
 Definition mkop (tag : Z) (c : ccall) (j : Z) : cop := (tag, c, j).
 Definition nocall : ccall := mkcall 0 0 0 [] [] 0.
 Definition mkcase (newkey cpy cap : Z) (pool : list (Z * bytes * bytes * bytes))
@@ -1554,6 +1555,8 @@ def run(run):
                 run.count("cache:distinct>cap")
             for nt in res["notes"][:1]:
                 run.notes.append("cache: " + nt)
+                run.broken.append(("oracle-hypothesis(memoised functions are "
+                                   "deterministic functions of their arguments)", nt))
         if k == "hashfile":
             run.count("hashfile:mtime-bumps", res["bumps"])
             run.count("hashfile:hits", res["hits"])
